@@ -16,6 +16,29 @@ def load_known():
         return json.load(fp)['findings']
 
 
+_known_cache = {}
+
+
+def known_entry(prop, fingerprint):
+    """The known finding (status 'known') that lists `fingerprint`, or
+    None."""
+    import re
+    ents = _known_cache.get(prop)
+    if ents is None:
+        ents = []
+        for k in load_known():
+            if k['property'] == prop and k.get('status', 'known') == 'known':
+                ents.append((set(k.get('fingerprints', [])),
+                             [re.compile(p) for p in
+                              k.get('fingerprint_patterns', [])], k))
+        _known_cache[prop] = ents
+    for fps, pats, k in ents:
+        if fingerprint in fps or any(rx.fullmatch(fingerprint)
+                                     for rx in pats):
+            return k
+    return None
+
+
 class Collector(object):
     """Collects violations of one property run, grouped by fingerprint."""
 
